@@ -710,7 +710,14 @@ class PureScheduler:                                    # pylint: disable=r0902
             # wait for the forever tasks for a clean exit
             # don't bother to set a timeout, as this is expected
             # to be immediate since all tasks are canceled
-            await asyncio.wait(pending)
+            try:
+                await asyncio.wait(pending)
+            except asyncio.CancelledError:
+                # we are being cancelled ourselves, e.g. by an enclosing
+                # scheduler; these tasks are cancelled already,
+                # still wait for them so that they do not outlive us
+                await asyncio.wait(pending)
+                raise
 
     async def _tidy_tasks_exception(self, tasks):
         """
@@ -881,7 +888,13 @@ class PureScheduler:                                    # pylint: disable=r0902
         await self._feedback(None, "scheduler is shutting down...")
 
         # the done part is of no use here
-        _, pending = await asyncio.wait(tasks, timeout=timeout)
+        try:
+            _, pending = await asyncio.wait(tasks, timeout=timeout)
+        except asyncio.CancelledError:
+            # cancelled in the middle of the shutdown phase:
+            # do not leave the co_shutdown() tasks behind
+            await self._tidy_tasks(tasks)
+            raise
         # everything went fine
         # NOTE however: here we say that sub-schedulers that expired in timeout
         # should not impact the overall result; this is an arguable choice
@@ -988,10 +1001,17 @@ class PureScheduler:                                    # pylint: disable=r0902
                    for job in entry_jobs]
 
         while True:
-            done, pending \
-                = await asyncio.wait(pending,
-                                     timeout=self._remaining_timeout(),
-                                     return_when=asyncio.FIRST_COMPLETED)
+            try:
+                done, pending \
+                    = await asyncio.wait(pending,
+                                         timeout=self._remaining_timeout(),
+                                         return_when=asyncio.FIRST_COMPLETED)
+            except asyncio.CancelledError:
+                # this run is being cancelled, typically a nested scheduler
+                # whose enclosing scheduler times out or aborts:
+                # our own jobs must not keep on running behind our back
+                await self._tidy_tasks(pending)
+                raise
 
             done_ok = {t for t in done if not t._exception}
             await self._feedback(done_ok, "DONE")
